@@ -396,7 +396,7 @@ func r18WalkSkipsOnlyItself(c *cx, id string) {
 				return true
 			}
 			n++
-			be, ok := ast.Unparen(ifs.Cond).(*ast.BinaryExpr)
+			be, ok := ast.Unparen(resolveBool(f, ifs.Cond)).(*ast.BinaryExpr)
 			okk := false
 			if ok && be.Op == token.EQL && ifs.Init == nil {
 				k, _ := rs.Key.(*ast.Ident)
@@ -629,20 +629,16 @@ func r18RoutersOnlyForStanzas(c *cx, id string) {
 		if !routers {
 			return true
 		}
-		// the innermost if that contains the routers
-		inner := false
-		ast.Inspect(ifs.Body, func(x ast.Node) bool {
-			if i2, ok := x.(*ast.IfStmt); ok {
-				ast.Inspect(i2.Body, func(y ast.Node) bool {
-					if sel, ok := y.(*ast.SelectorExpr); ok && strings.HasSuffix(sel.Sel.Name, "outer") {
-						inner = true
-					}
-					return true
-				})
+		// the outermost if that contains the routers: skip this one when an
+		// enclosing if statement contains it
+		enclosed := false
+		ast.Inspect(f.Body, func(x ast.Node) bool {
+			if o, ok := x.(*ast.IfStmt); ok && o != ifs && o.Pos() <= ifs.Pos() && ifs.End() <= o.End() {
+				enclosed = true
 			}
 			return true
 		})
-		if inner {
+		if enclosed {
 			return true
 		}
 		n++
